@@ -362,6 +362,10 @@ func (h *H) updateModel(s *step) {
 				ss.Toks = []tokSet{ts}
 				ss.Pending = false
 				ss.LoggedIn++
+				// a completed login sends the browser back to what this session first asked for - nothing else
+				if ss.Login.Requested != "" && r.Location() != ss.Login.Requested {
+					h.c.Violation("wrong-return-url", "step #%d: the login of session %s completes with Location %q; the session first asked for %q", s.N, short(single, 12), r.Location(), ss.Login.Requested)
+				}
 			}
 			ss.MayLive = true
 		case "refresh_token":
